@@ -31,6 +31,9 @@ func TextConsumer() Consumer {
 		if reader == nil {
 			return errors.New("TextConsumer requires a reader") // early exit
 		}
+		if isNilPointer(data) {
+			return errors.New("nil destination for TextConsumer")
+		}
 
 		buf := new(bytes.Buffer)
 		_, err := buf.ReadFrom(reader)
